@@ -650,6 +650,7 @@ type vfReq struct {
 	Raw    []byte // request body as is
 	Cookies map[string]string
 	PreCookies [][2]string // sent before Cookies in the Cookie header (duplicate names allowed)
+	WriteFail  bool        // the requester's connection breaks while the response body is written (Write returns an error)
 	Basic  *[2]string
 	Header map[string]string
 	Peer   string // ip (port added)
@@ -817,6 +818,9 @@ func (w *vfWorld) prepare(r *vfReq) *vfCall {
 			r.Header["X-Real-Ip"] = m[len("fwd:"):]
 		case strings.HasPrefix(m, "peer:"):
 			r.Peer = m[len("peer:"):]
+		case m == "writefail":
+			r.WriteFail = true
+			w.fault("net.response.write.error")
 		}
 	}
 	w.pendingMods = nil
@@ -852,14 +856,29 @@ func (c *vfCall) exec() {
 				c.resp.Panic = p
 			}
 		}()
+		var rw http.ResponseWriter = c.rec
+		if c.r.WriteFail {
+			rw = &vfBrokenWriter{rec: c.rec}
+		}
 		if c.r.Admin {
-			w.adm.ServeHTTP(c.rec, c.req)
+			w.adm.ServeHTTP(rw, c.req)
 		} else {
-			w.svc.ServeHTTP(c.rec, c.req)
+			w.svc.ServeHTTP(rw, c.req)
 		}
 	}()
 	c.ctx.ended = time.Now()
 	w.setCtx(nil)
+}
+
+// vfBrokenWriter is a response writer whose peer has gone: headers are accepted, every body write fails.  What
+// the handler tried to send is kept (the oracles need to know what was signed), the requester receives nothing.
+type vfBrokenWriter struct{ rec *httptest.ResponseRecorder }
+
+func (b *vfBrokenWriter) Header() http.Header { return b.rec.Header() }
+func (b *vfBrokenWriter) WriteHeader(c int)   { b.rec.WriteHeader(c) }
+func (b *vfBrokenWriter) Write(p []byte) (int, error) {
+	b.rec.Write(p)
+	return 0, fmt.Errorf("http2: stream closed")
 }
 
 func (c *vfCall) finish() *vfResp {
